@@ -45,6 +45,8 @@ static const Tmpl TMPL[] = {
     {"file:///{}", ref::S_PATH},           {"ht\ttp://h/{}?{}#{}", ref::S_PATH}, {"http://h/{}?{}#{}", ref::S_PATH},
     {"wss://host.example/{}", ref::S_PATH}, {"foo:/p?{}#{}", ref::S_QUERY},    {"https://h:8080/x/{}/y", ref::S_PATH},
     {"foo:x#{}", ref::S_FRAGMENT},
+    // opaque path whose last character is a space (escaped as %20 by a separate branch) in front of a query / fragment
+    {"foo:{} ?q", ref::S_C0},              {"foo:{} #f", ref::S_C0},           {"foo://u:{}@h/p?q#f", ref::S_USERINFO},
 };
 static const int N_TMPL = sizeof(TMPL) / sizeof(TMPL[0]);
 struct Setter { int op; const char* start; int set; const char* prefix; };
@@ -55,6 +57,10 @@ static const Setter SETTERS[] = {
     {obs::SET_HASH, "http://h/", ref::S_FRAGMENT, "#"},     {obs::SET_HOST, "foo://h/", ref::S_C0, ""},
     {obs::SET_HOSTNAME, "foo://h/", ref::S_C0, ""},         {obs::SET_HASH, "foo:opaque", ref::S_FRAGMENT, "#"},
     {obs::SET_SEARCH, "foo:opaque", ref::S_QUERY, "?"},     {obs::SET_USERNAME, "foo://h/", ref::S_USERINFO, ""},
+    // the same setters on URLs that already have the components *behind* the edited one: the in-place editors take other branches
+    {obs::SET_SEARCH, "http://h/p#frag", ref::S_SPECIAL_QUERY, "?"}, {obs::SET_SEARCH, "foo://h/p#frag", ref::S_QUERY, "?"},
+    {obs::SET_PATHNAME, "https://u:p@h:81/old?q#f", ref::S_PATH, "/"}, {obs::SET_USERNAME, "wss://old:pw@h:81/p?q#f", ref::S_USERINFO, ""},
+    {obs::SET_PASSWORD, "wss://u:old@h/p?q#f", ref::S_USERINFO, ""}, {obs::SET_HASH, "http://h/p?q#old", ref::S_FRAGMENT, "#"},
 };
 static const int N_SETTERS = sizeof(SETTERS) / sizeof(SETTERS[0]);
 
